@@ -20,7 +20,7 @@ OMIT = "omitted"
 def gen(tier, rng, shard, nshards):
     for i in range(SIZES[tier]):
         dtm = S.pick(rng, ["f8", "f8", "c16", "f4", "mixed"])
-        o = S.Opts(dtmode=dtm, clean=True, kinds=set(KINDS), max_dim=12, identity_dt="f4")
+        o = S.Opts(dtmode=dtm, clean=True, kinds=set(KINDS), max_dim=12, identity_dt="f4", routines=0.06)
         r = rng.random()
         if r < 0.12:  # sizes on both sides of (and not divisible by) the probing block
             n = int(S.pick(rng, BIG))
@@ -60,6 +60,15 @@ def gen(tier, rng, shard, nshards):
                     "KronSum": {"k": "KronSum", "via": "ctor", "args": [first, later(b_)]}}[form]
             n = R.shape_of(node)[0]
             k = int(rng.integers(-n + 1, n)) if rng.random() < 0.5 else 0
+        if r >= 0.12 and rng.random() < 0.07:
+            # directed: the (off-)diagonals of what another routine returned - lazy inverses of triangular factors (each side of
+            # the diagonal), of Cholesky factors, factor-wise inverses - alone, transposed, or as a summand
+            from harness import wellcond as W
+            n = int(S.pick(rng, [2, 3, 4, 5]))
+            rt = W.direct_only(W.gen_routine_directed(rng, S.pick(rng, ["f8", "c16", "f4"]), n))
+            node = S.pick(rng, [rt, rt, {"k": S.pick(rng, ["Transpose", "Adjoint"]), "via": S.pick(rng, ["ctor", "fn"]), "arg": rt},
+                                {"k": "Sum", "via": "ctor", "args": [rt, {"k": "Dense", "shape": [n, n], "dt": rt["arg"].get("dt", "f8") if "dt" in rt["arg"] else "f8", "seed": S.seed(rng)}]}])
+            k = int(rng.integers(-n + 1, n))
         alg = S.pick(rng, ["Exact", "Exact", "Auto", OMIT])
         yield {"spec": node, "k": k, "alg": alg, "prime": S.pick(rng, [None, None, "hutch-same-offset", "hutch-trace", "exact-other-offset"])}
 
